@@ -63,6 +63,9 @@ type Expect struct {
 	Borderline map[string]string
 	BorderPath map[string][]interface{}
 	BorderN    map[string]int // occurrences (the same key may be selected more than once)
+	// Seen counts, per selection id, how often the selection was evaluated on an object
+	// (after @skip/@include and fragment applicability).
+	Seen map[int]int
 	// BadEnum: paths where the resolver returned a name the enum does not declare.
 	BadEnum map[string]BadEnumInfo
 	// Traits observed while executing (for non-triviality rules and class counters).
@@ -144,7 +147,7 @@ func EffectiveVars(op *Op, vars map[string]Val) map[string]Val {
 
 // Run executes the named operation.
 func (x *Exec) Run(opName string, vars map[string]Val) *Expect {
-	x.out = &Expect{Calls: map[string]int{}, Borderline: map[string]string{}, BorderPath: map[string][]interface{}{}, BorderN: map[string]int{}, BadEnum: map[string]BadEnumInfo{}}
+	x.out = &Expect{Calls: map[string]int{}, Borderline: map[string]string{}, BorderPath: map[string][]interface{}{}, BorderN: map[string]int{}, Seen: map[int]int{}, BadEnum: map[string]BadEnumInfo{}}
 	x.faults = map[string]Fault{}
 	for _, f := range x.Faults {
 		x.faults[faultKey(f.Node, f.Field)] = f
@@ -213,6 +216,7 @@ func (x *Exec) selSet(n *Node, sels []*Sel, out map[string]interface{}, path []i
 			x.out.T.Skipped++
 			continue
 		}
+		x.out.Seen[s.ID]++
 		switch s.Kind {
 		case "inline":
 			x.out.T.Inline++
